@@ -69,8 +69,9 @@ $(BUILD)/obj/%.o: $(ROOT)/sim/%.c $(LIBHDR) $(TOOLCHAIN_H)
 	@echo "  CC  $<"
 	@$(CC) $(CFLAGS) -c $< -o $@
 $(BUILD)/bin/regsim: $(BUILD)/obj/regmacros.o
+$(BUILD)/bin/slipsim: $(BUILD)/obj/slipmacros.o
 
-$(BUILD)/bin/%: $(BUILD)/obj/%.o $(LIBOBJ)
+$(BUILD)/bin/%: $(BUILD)/obj/%.o $(BUILD)/obj/hdrmacros.o $(LIBOBJ)
 	@mkdir -p $(dir $@)
 	@echo "  LD  $@"
 	@$(CXX) $^ $(LDFLAGS) -o $@
